@@ -411,6 +411,8 @@ pub enum Op {
     SpuriousSettle(usize),
     /// Mark every datagram emitted from now on (that carries ECT) as CE
     CeFrom(u64),
+    /// Accept every held Incoming of the server and stop holding
+    AcceptHeld,
 }
 
 pub fn apply_op(p: &mut StdPair, op: &Op) {
@@ -438,6 +440,13 @@ pub fn apply_op(p: &mut StdPair, op: &Op) {
         }
         Op::MaxDatagrams(n) => {
             p.w.max_datagrams = *n;
+            return;
+        }
+        Op::AcceptHeld => {
+            use crate::sim::AcceptPolicy;
+            let pol = p.w.nodes[SERVER].policy;
+            p.w.nodes[SERVER].policy = if pol == AcceptPolicy::RetryHold { AcceptPolicy::Retry } else { AcceptPolicy::Accept };
+            while p.w.accept_held(SERVER).is_some() {}
             return;
         }
         Op::CeFrom(count) => {
